@@ -754,3 +754,41 @@ def run(ctx):
         )
 
     ctx.section(_sec_cli)
+
+    def _sec_group():
+        # -------------------------------------------------------------- group
+        # openapi_bulk merges the handlers of one path with itertools.groupby and keeps the groups in a dict. groupby
+        # only merges NEIGHBOURS: routes upserted model after model (or letter after letter) are not adjacent per path,
+        # a path then yields two groups and dict() keeps the last — operations vanish from the document. The grouped
+        # iterable must be sorted by the very key it is grouped by.
+        from ..core import RefGraph
+        from ..defuse import expand_aliases
+        from ..region import Region
+
+        ob = index.func("cdd.compound.openapi.gen_openapi.openapi_bulk")
+        n_g = 0
+        for g_, n in Region(index, RefGraph(index), ob, allow_passed=True).nodes():
+            if not (isinstance(n, ast.Call) and norm(n.func).rpartition(".")[2] == "groupby" and n.args):
+                continue
+            n_g += 1
+            key = next((k.value for k in n.keywords if k.arg == "key"), n.args[1] if len(n.args) > 1 else None)
+            src = expand_aliases(g_, n.args[0])
+            skey = None
+            if isinstance(src, ast.Call) and norm(src.func) == "sorted":
+                skey = next((k.value for k in src.keywords if k.arg == "key"), None)
+            ok = isinstance(src, ast.Call) and norm(src.func) == "sorted" and (norm(skey) if skey is not None else None) == (norm(key) if key is not None else None)
+            ctx.ob(
+                "C16.crud",
+                g_,
+                "handlers are grouped per path over an iterable sorted by that path",
+                ok,
+                ""
+                if ok
+                else "`{}` groups an iterable that is not sorted by the grouping key: groupby merges neighbours only, so when the "
+                "handlers of one path are not adjacent in the routes file(s) (a second model, or a CRUD letter added later) the "
+                "path comes out twice and dict() keeps the last group — an operation that was requested is missing".format(short(n, 60)),
+                line=n.lineno,
+            )
+        ctx.count("groupby_calls_in_openapi_bulk", n_g)
+
+    ctx.section(_sec_group)
